@@ -58,7 +58,8 @@ class Sim:
             if s is not None and s.is_actor_thread() and not s.outer:
                 s.force_abort()
             raise SimAbort("event budget exceeded")
-        if yield_ and s is not None and s.is_actor_thread():
+        if yield_ and s is not None and s.is_actor_thread() \
+                and (s.only_kinds is None or kind in s.only_kinds):
             s.yield_point()
 
     def crash_point(self, kind, file):
